@@ -1,7 +1,7 @@
 """C05 - Max-Sum without damping is exact on acyclic factor graphs with a unique optimum."""
 from ..algocheck import run_algo_check, replay  # noqa: F401
 
-TREES = ["single", "unary1", "pair", "pair3", "pairrev", "unarypair", "isolated", "isounary", "path3", "path3d3", "fork3", "tern",
+TREES = ["single", "unary1", "pair", "pair3", "pairrev", "unarypair", "upath", "ustar", "uall", "isolated", "isounary", "path3", "path3d3", "fork3", "tern",
          "twocomp", "path4", "star4"]
 LARGE = ["path5", "tree5", "tern5"]
 CLAUSES = {"EXC", "end_on_non_optimal_assignment"}
